@@ -40,6 +40,7 @@ NCPU = min(16, os.cpu_count() or 1)
 class Failure:
     bucket: str
     detail: str = ""
+    info: Any = None  # optional structured data for known-finding predicates
 
 
 @dataclasses.dataclass
@@ -52,8 +53,8 @@ class Outcome:
     # optional: extra distinct non-trivial digests contributed by this case (e.g. per crash state)
     extra_digests: list = dataclasses.field(default_factory=list)
 
-    def fail(self, bucket: str, detail: Any = "") -> None:
-        self.failures.append(Failure(bucket, str(detail)[:600]))
+    def fail(self, bucket: str, detail: Any = "", info: Any = None) -> None:
+        self.failures.append(Failure(bucket, str(detail)[:600], info))
 
 
 @dataclasses.dataclass
@@ -387,6 +388,10 @@ def run_check(modname: str, tier: str, seed: int, replay: str | None = None) -> 
     known = load_known(pid)
     t0 = time.time()
     violations: list[tuple[str, str]] = []  # (bucket, replay path)
+    if replay is None:
+        import shutil
+
+        shutil.rmtree(os.path.join(REPLAY_DIR, pid), ignore_errors=True)
 
     # ---- explicit replay ---------------------------------------------------------------------
     if replay is not None:
@@ -541,8 +546,11 @@ def run_check(modname: str, tier: str, seed: int, replay: str | None = None) -> 
             print(e, file=sys.stderr)
         return 2
     write_evidence(mod, tier, seed, wall, coverage, len(violations))
+    seen_paths = set()
     for b, path in violations:
-        print(f"VIOLATION property={pid} replay={path}")
+        if path not in seen_paths:
+            print(f"VIOLATION property={pid} replay={path}")
+        seen_paths.add(path)
     print(
         f"{pid} tier={tier} seed={seed}: {coverage['evaluations']} cases, {total.units} units, "
         f"{coverage['distinct_nontrivial']} distinct non-trivial, excluded_known={dict(total.excluded)}, "
